@@ -122,6 +122,9 @@ impl<H: Hasher> BatchMerkleProof<H> {
         if indexes.len() > MAX_PATHS {
             return Err(MerkleTreeError::TooManyLeafIndexes(MAX_PATHS, indexes.len()));
         }
+        if self.depth as u32 >= usize::BITS {
+            return Err(MerkleTreeError::InvalidProof);
+        }
 
         let mut buf = [H::Digest::default(); 2];
         let mut v = BTreeMap::new();
@@ -130,6 +133,10 @@ impl<H: Hasher> BatchMerkleProof<H> {
         let index_map = super::map_indexes(indexes, self.depth as usize)?;
         let indexes = super::normalize_indexes(indexes);
         if indexes.len() != self.nodes.len() {
+            return Err(MerkleTreeError::InvalidProof);
+        }
+        // the proof must contain exactly one leaf per index
+        if index_map.len() != self.leaves.len() {
             return Err(MerkleTreeError::InvalidProof);
         }
 
@@ -239,6 +246,11 @@ impl<H: Hasher> BatchMerkleProof<H> {
                 i += 1;
             }
         }
+        // all nodes supplied with the proof must have been used
+        if proof_pointers.iter().zip(self.nodes.iter()).any(|(&p, nodes)| p != nodes.len()) {
+            return Err(MerkleTreeError::InvalidProof);
+        }
+
         v.remove(&1).ok_or(MerkleTreeError::InvalidProof)
     }
 
@@ -260,11 +272,11 @@ impl<H: Hasher> BatchMerkleProof<H> {
             return Err(MerkleTreeError::InvalidProof);
         }
 
-        let mut partial_tree_map = BTreeMap::new();
-
-        for (&i, leaf) in indexes.iter().zip(self.leaves.iter()) {
-            partial_tree_map.insert(i + (1 << (self.depth)), *leaf);
+        if self.depth as u32 >= usize::BITS {
+            return Err(MerkleTreeError::InvalidProof);
         }
+
+        let mut partial_tree_map = BTreeMap::new();
 
         let mut buf = [H::Digest::default(); 2];
         let mut v = BTreeMap::new();
@@ -272,6 +284,10 @@ impl<H: Hasher> BatchMerkleProof<H> {
         // replace odd indexes, offset, and sort in ascending order
         let original_indexes = indexes;
         let index_map = super::map_indexes(indexes, self.depth as usize)?;
+
+        for (&i, leaf) in indexes.iter().zip(self.leaves.iter()) {
+            partial_tree_map.insert(i + (1 << (self.depth)), *leaf);
+        }
         let indexes = super::normalize_indexes(indexes);
         if indexes.len() != self.nodes.len() {
             return Err(MerkleTreeError::InvalidProof);
